@@ -13,8 +13,51 @@ def observe(sb):
             'raw_cmd': S.get_raw_output(), 'out_cmd': list(S.get_output()), 'ctx_ids': [getattr(c, 'context_id', None) for c in sb._context]}
 
 
+def scenarios():
+    """a few whole scenarios judged against a plain simulation of print/input (tools/props/c15.py: scenario_oracle)"""
+    from pedal.sandbox.mocked import make_inputs
+    out = {}
+    ask = 'for i in range(4):\n    x = input("Q%d>" % i)\n    print("got", x)\n'
+    # an input provider with a repeated default once its list is used up
+    contextualize_report(ask)
+    S.clear_sandbox()
+    sb = S.get_sandbox()
+    sb.set_input(make_inputs(['a', 'b'], repeat='r'))
+    S.run()
+    out['provider-with-repeat'] = {'raw': sb.raw_output, 'exc': None if sb.exception is None else type(sb.exception).__name__}
+    # many reads, in several executions of one sandbox: the limit on reads is per execution
+    many = 'def drain(n):\n    t = 0\n    for i in range(n):\n        t += len(input())\n    return t\nprint(drain(45000))\n'
+    contextualize_report(many)
+    S.clear_sandbox()
+    sb = S.get_sandbox()
+    S.run()
+    first = None if sb.exception is None else type(sb.exception).__name__
+    r2 = S.call('drain', 45000)
+    second = None if sb.exception is None else type(sb.exception).__name__
+    S.queue_input('abc')
+    r3 = S.evaluate('drain(45000)')
+    third = None if sb.exception is None else type(sb.exception).__name__
+    out['many-reads'] = {'excs': [first, second, third], 'results': [repr(S.get_raw_output())[-12:], repr(r2), repr(r3)]}
+    # what is written to standard ERROR is not output
+    contextualize_report('import sys\nprint("to out")\nsys.stderr.write("to err\\n")\nprint("warn", file=sys.stderr)\nprint("out again")\n')
+    S.clear_sandbox()
+    sb = S.get_sandbox()
+    import io
+    real_err = sys.stderr
+    sys.stderr = io.StringIO()
+    try:
+        S.run()
+    finally:
+        sys.stderr = real_err
+    out['stderr'] = {'raw': sb.raw_output, 'lines': list(sb.output), 'exc': None if sb.exception is None else type(sb.exception).__name__}
+    return out
+
+
 def main():
     data = json.load(sys.stdin)
+    if data.get('scenarios'):
+        json.dump(scenarios(), open(sys.argv[1], 'w'))
+        return
     res = []
     for case in data['cases']:
         contextualize_report(case['main'])
